@@ -23,11 +23,9 @@ Proof. intro H. exact (proj1 (run_hist_kept ops n n' H)). Qed.
 Theorem C12_reject_before_change (n n' : node) (o : op) (p : phase) (e : exn) :
   step n o = Err p e n' -> p <> PCore ->
   same_node n n' /\
-  (is_fit o = false \/ p = PSupport -> p <> PInit \/ (forall td, op_y o <> Some (DTeacher td)) -> n' = n) /\
+  (is_fit o = false \/ p = PSupport -> teacher n = None -> n' = n) /\
   (is_fit o = true -> p <> PSupport -> n' = clean_buffers n).
 Proof. exact (reject_before_change n n' o p e). Qed.
-(* (the only other trace: a train whose target is a teacher NODE accepted by check_xy and whose initialisation then fails
-   keeps that teacher registered — mirrored from the code, see C12_uninitialised_teacher_stays_refuted) *)
 
 (* 2b. Targets given as a teacher node: a teacher whose known output size differs from the node's is rejected by check_xy
        and NOT registered — the node is literally unchanged; and an accepted operation never leaves a teacher behind. *)
@@ -39,6 +37,11 @@ Proof. exact (teacher_mismatch_rejected n x o t). Qed.
 Theorem C12_no_teacher_left_behind (n n' : node) (o : op) (out : option (nat * nat)) :
   step n o = Ok n' out -> teacher n = None -> teacher n' = None.
 Proof. exact (step_ok_teacher n n' o out). Qed.
+
+(* ... nor does a train call that fails, in whatever phase (try/finally in Node.train since f5028fe) *)
+Theorem C12_train_clears_teacher (n n' : node) (x : data) (y : option data) :
+  after n (step n (OTrain x y)) = Some n' -> teacher n = None -> teacher n' = None.
+Proof. exact (train_clears_teacher n n' x y). Qed.
 
 (* 3. Operations the node has no rule for: offline fit / partial_fit of a node without offline rule, train of a node
       without online rule -> TypeError, node unchanged. *)
@@ -188,6 +191,18 @@ Theorem C12_too_many_dims_prefix_refuted :
   exists sh d, feat sh <> d /\ prefix_check_too_many_dims (DArr true sh) false = ROk (DArr true sh).
 Proof. exists [1; 2; 2; 5], 3. vm_compute. split; [discriminate|reflexivity]. Qed.
 
+(* pre-fix (before f5028fe): a train call that failed after check_xy had registered a teacher left it on the node
+   (prefix_after_failed_train); in HEAD the same call leaves none and the following valid train is accepted *)
+Theorem C12_uninitialised_teacher_stays_refuted :
+  exists n n', initialized n = true /\ teacher n = None /\
+    teacher (prefix_after_failed_train n None) <> None /\
+    step n (OTrain (DArr true [4; 3]) (Some (DTeacher None))) = Err PCore RuntimeError n' /\ teacher n' = None /\
+    (exists n2, step n' (OTrain (DArr true [4; 3]) (Some (DArr true [4; 2]))) = Ok n2 (Some (4, 2))).
+Proof.
+  exists (mkNode KOnline true (Some [3]) (Some 2) (Some [1; 2]) 1 1 false None false).
+  eexists. vm_compute. repeat split; try reflexivity; try discriminate. eexists; reflexivity.
+Qed.
+
 (* OPEN findings mirrored by the model (the validation of HEAD accepts these; what happens next is 'Irregular'):
    a 3-D array given to call() of an initialised node passes check_xy (state-not-2d:3d-input) ... *)
 Theorem C12_3d_input_accepted_refuted :
@@ -211,23 +226,11 @@ Proof.
   intros n I. unfold check_xy. rewrite I. reflexivity.
 Qed.
 
-(* OPEN finding mirrored by the model: a never-initialised teacher node (no known dimension) passes check_xy and is
-   registered; fetching its value then raises RuntimeError and Node.train only unregisters a teacher on success, so the
-   teacher stays and the next, perfectly valid, train(X, Y array) fails the same way *)
-Theorem C12_uninitialised_teacher_stays_refuted :
-  exists n n', initialized n = true /\ teacher n = None /\
-    step n (OTrain (DArr true [4; 3]) (Some (DTeacher None))) = Err PCore RuntimeError n' /\ teacher n' = Some None /\
-    step n' (OTrain (DArr true [4; 3]) (Some (DArr true [4; 2]))) = Err PCore RuntimeError n' /\
-    (exists n2, step n (OTrain (DArr true [4; 3]) (Some (DArr true [4; 2]))) = Ok n2 (Some (4, 2))).
-Proof.
-  exists (mkNode KOnline true (Some [3]) (Some 2) (Some [1; 2]) 1 1 false None false).
-  eexists. vm_compute. repeat split; try reflexivity. eexists; reflexivity.
-Qed.
-
 Print Assumptions C12_dims_immutable.
 Print Assumptions C12_reject_before_change.
 Print Assumptions C12_teacher_mismatch_rejected.
 Print Assumptions C12_no_teacher_left_behind.
+Print Assumptions C12_train_clears_teacher.
 Print Assumptions C12_unsupported_rejected.
 Print Assumptions C12_unsupported_cases.
 Print Assumptions C12_wrong_feature_rejected.
